@@ -70,8 +70,9 @@ def run_nested(ops):
             return "after step %d %r: %s" % (n, op, bad)
     return None
 
-def fresh_model():
-    m = Model(scheduler=SimultaneousScheduler(), data_collector=DataCollector())
+def fresh_model(no_dc=False):
+    # no_dc: the default constructor leaves data_collector None; every registry operation incl. reset must still work
+    m = Model(scheduler=SimultaneousScheduler()) if no_dc else Model(scheduler=SimultaneousScheduler(), data_collector=DataCollector())
     m.register_agent_factory("a", lambda i, mod, p: TA(i, mod, p))
     m.register_agent_factory("b", lambda i, mod, p: TB(i, mod, p))
     m.register_agent_factory("c", lambda i, mod, p: TC(i, mod, p))
@@ -170,8 +171,8 @@ def check(m, oracle):
         return "per-type id lists are aliased"
     return None
 
-def run(ops):
-    m = fresh_model(); oracle = dict(agents=[], next=0)
+def run(ops, no_dc=False):
+    m = fresh_model(no_dc); oracle = dict(agents=[], next=0)
     for n, op in enumerate(ops):
         try:
             apply(m, oracle, op)
@@ -242,6 +243,15 @@ def main():
         if bad:
             body = PRELUDE + '\nops = %r\nbad = run_nested(ops)\nprint("history:", ops)\nprint("FAIL: " + bad if bad else "PASS")\nsys.exit(1 if bad else 0)\n' % (nops,)
             failures.append(dict(what='%s  (history %r)' % (bad, nops), script=write_replay('C14', 'nested', body), known=None))
+            break
+    # models built by the default constructor (no data collector): scripted reset histories, then random ones
+    for ops in [[('reset',)], [('create', 'a'), ('reset',), ('create', 'b')], [('creates', 'a', 3), ('delete', 1), ('reset',), ('creates', 'c', 2)]] \
+            + [gen_ops(rnd, rnd.randint(1, 10), dict(weights, reset=weights['reset'] + 6)) for _ in range(60)]:
+        n += 1
+        bad = run(ops, True)
+        if bad:
+            body = PRELUDE + '\nops = %r\nbad = run(ops, True)\nprint("history (Model without data collector):", ops)\nprint("FAIL: " + bad if bad else "PASS")\nsys.exit(1 if bad else 0)\n' % (ops,)
+            failures.append(dict(what='%s  (no data collector, history %r)' % (bad, ops), script=write_replay('C14', 'nodc', body), known=None))
             break
     while time.time() < t_end and not failures:
         ops = gen_ops(rnd, rnd.randint(1, 12), weights)
